@@ -1,6 +1,8 @@
 package main
 
 import (
+	"go/ast"
+	"go/token"
 	"os"
 	"path/filepath"
 	"sort"
@@ -46,6 +48,49 @@ func init() {
 			okCn = n == 1 && contains(ss, "if r.Header().Rrtype == dns.TypeOPT { lenExtra-- }") && contains(ss, "m2.Extra = append(m2.Extra, dns.Copy(r))")
 		}
 		ex.setBool("c15CopyNoOptDropsOpt", okCn, cn != nil, "copyNoOpt skips every OPT in Extra")
+		// copyNoOpt always hands back a message of its own: the only results are nil and the local m2, m2 is new(dns.Msg)
+		// and is never re-pointed. Counted: return statements with any other result + other assignments to m2 (+1000
+		// when m2 := new(dns.Msg) is missing). 0 = no path returns the argument (or anything reachable before the call).
+		if cn != nil {
+			alias, defs := int64(0), 0
+			ast.Inspect(cn.Body, func(n ast.Node) bool {
+				switch s := n.(type) {
+				case *ast.FuncLit:
+					alias += 500 // a closure: not analysed
+				case *ast.ReturnStmt:
+					if len(s.Results) != 1 {
+						alias++
+					} else if r := ex.str(s.Results[0]); r != "nil" && r != "m2" {
+						alias++
+					}
+				case *ast.AssignStmt:
+					for _, l := range s.Lhs {
+						if id, ok := l.(*ast.Ident); ok && id.Name == "m2" {
+							if s.Tok == token.DEFINE && len(s.Lhs) == 1 && len(s.Rhs) == 1 && ex.str(s.Rhs[0]) == "new(dns.Msg)" {
+								defs++
+							} else {
+								alias++
+							}
+						}
+					}
+				case *ast.UnaryExpr:
+					if s.Op == token.AND && ex.str(s.X) == "m2" {
+						alias++
+					}
+				case *ast.StarExpr:
+					if ex.str(s.X) == "m2" {
+						alias++ // *m2 = *m would share the slices
+					}
+				}
+				return true
+			})
+			if defs != 1 {
+				alias += 1000
+			}
+			ex.setNat("c15CopyNoOptAliasPaths", alias, true, "copyNoOpt: ways to hand back something other than nil or its own new(dns.Msg) (results other than nil / m2, re-pointing of m2); 0 = the stored message is never the live response")
+		} else {
+			ex.setNat("c15CopyNoOptAliasPaths", 0, false, "copyNoOpt not found")
+		}
 		// who touches RespOpt()/QOpt(): only ecs_handler, forward_edns0opt and the entry handler
 		var users []string
 		filepath.Walk(ex.repo, func(p string, info os.FileInfo, err error) error {
